@@ -494,3 +494,74 @@ read_go_map = FunctionContract(
             ("len(tokens) == 18", "len(tokens) >= 18")],
 )
 CONTRACTS.append(read_go_map)
+
+
+# ------------------------------------------------------------------ ComputeStructuralGoBias._chain_id_to_resnode
+ChainT = TKey('ChainT')
+CRKey = TTuple(TOpt(ChainT), TOpt(TInt))
+CRMap = TMap(CRKey, TInt)
+
+
+def setup_cir(cx):
+    from pyvc.builtins import list_append
+    RN = cx.val('RESNODES', TSeq(TInt))                     # self.res_graph.nodes, in order
+    cx.spec_env['RESNODES'] = RN
+    chain_of = cx.uf('chain_of', [TInt], TOpt(ChainT))      # res_graph.nodes[r].get('chain', None)
+    rid_of = cx.uf('old_resid_of', [TInt], TOpt(TInt))      # res_graph.nodes[r].get('_old_resid')
+    cur_rid_of = cx.uf('resid_of', [TInt], TOpt(TInt))
+    cache = cx.box('CACHE', CRMap)
+    cx.heap('CACHE', cache)
+    DEBUG = cx.heap('DEBUGGED', cx.box('DEBUGGED', TSeq(TStr)))
+
+    def node(e, r):
+        re_ = to_z3(r, TInt)
+
+        def get(e2, k, d=None):
+            if k == 'chain' and d is None:
+                return SV(TOpt(ChainT), chain_of(re_))
+            if k == '_old_resid' and d is None:
+                return SV(TOpt(TInt), rid_of(re_))
+            if k == 'resid' and d is None:
+                return SV(TOpt(TInt), cur_rid_of(re_))      # the renumbered residue number: something else
+            raise EngineError('resnode.get(%r)' % (k,))
+        return Obj('resattrs', get=Builtin(get, 'get'))
+    nodes = Obj('NodeView', __getitem__=Builtin(node, 'res_graph.nodes[]'))
+    nodes.__dict__['iter'] = RN
+    self = Obj('ComputeStructuralGoBias', res_graph=Obj('res_graph', nodes=nodes))
+    self.attrs['__chain_id_to_resnode'] = cache             # the name-mangled private attribute, under the name the method uses
+    cx.spec_env['LOGGER'] = Obj('LOGGER', debug=Builtin(lambda e, *a, **k: list_append(e, DEBUG, 'not-found'), 'LOGGER.debug'))
+    return dict(self=self, chain=cx.val('chain', ChainT), resid=cx.val('resid', TInt))
+
+
+SPEC_CIR = {
+    'keyof': "lambda j: (chain_of(RESNODES[j]), old_resid_of(RESNODES[j]))",
+    'wanted': "lambda j: chain_of(RESNODES[j]) == chain and old_resid_of(RESNODES[j]) == resid",
+    # the table of all residues: every residue under its (chain, old residue number), nothing else
+    'table': "lambda C, J: forall(lambda j: implies(0 <= j and j < J, keyof(j) in C and C[keyof(j)] == RESNODES[j])) and "
+             "forall(lambda k: implies(k in C, exists(lambda j: 0 <= j and j < J and keyof(j) == k and C[k] == RESNODES[j])), CRKey)",
+}
+chain_id_to_resnode = FunctionContract(
+    FG, 'ComputeStructuralGoBias._chain_id_to_resnode', 'C18', setup=setup_cir, spec_defs=SPEC_CIR, spec_env=dict(CRKey=CRKey),
+    result_ty=TOpt(TInt),
+    requires=[
+        # different residues have different (chain, old residue number); the cache is either empty or the complete table
+        "forall(lambda i, j: implies(0 <= i and i < j and j < len(RESNODES), keyof(i) != keyof(j)))",
+        "len(old(CACHE)) == 0 or table(old(CACHE), len(RESNODES))",
+    ],
+    ensures=[
+        # the residue with this chain and (old) residue number, or None - with a debug message - when there is none; afterwards
+        # the cache is the complete table
+        "implies(result is not None, exists(lambda j: 0 <= j and j < len(RESNODES) and wanted(j) and payload(result) == RESNODES[j]))",
+        "implies(result is None, forall(lambda j: implies(0 <= j and j < len(RESNODES), not wanted(j))) and len(DEBUGGED) > len(old(DEBUGGED)))",
+        "implies(result is None or len(old(CACHE)) == 0, table(CACHE, len(RESNODES)))",
+    ],
+    modifies=['CACHE', 'DEBUGGED'],
+    loops={'L1': LoopSpec(inv=["forall(lambda j: implies(0 <= j and j < _i, keyof(j) in CACHE and CACHE[keyof(j)] == RESNODES[j]))",
+                               "forall(lambda k: implies(k in CACHE, exists(lambda j: 0 <= j and j < len(RESNODES) and keyof(j) == k and "
+                               "   CACHE[k] == RESNODES[j])), CRKey)",
+                               "len(old(CACHE)) == 0 or table(old(CACHE), len(RESNODES))"],
+                          modifies=['CACHE'])},
+    canary=[("resid_key = self.res_graph.nodes[resnode].get('_old_resid')", "resid_key = self.res_graph.nodes[resnode].get('resid')"),
+            ("self.__chain_id_to_resnode[(chain_key, resid_key)] = resnode", "self.__chain_id_to_resnode[(chain_key, resid_key)] = 0")],
+)
+CONTRACTS.append(chain_id_to_resnode)
